@@ -30,6 +30,27 @@ def reset (req : Env) : Env :=
     reset := some rstStream
     trailer := some [] }
 
+/-- processUnaryRpc's early reply to a request whose metadata does not decode: Internal status (the
+    message text is the decoder's, not modelled), no body, an empty trailer, addressed like every reply. -/
+def badMeta (req : Env) (fullMethod : Bytes) (msg : Bytes) : Env :=
+  let h := req.header.getD {}
+  { id := req.id
+    header := some { method := fullMethod, src := h.dst, dst := h.src, next := returnRoute h.record }
+    status := some { code := 13, message := msg }
+    trailer := some [] }
+
+theorem badMeta_id (req m msg) : (badMeta req m msg).id = req.id := rfl
+theorem badMeta_swaps (req : Env) (hq : Header) (hh : req.header = some hq) (m msg) :
+    ((badMeta req m msg).header.map (fun x => (x.src, x.dst))) = some (hq.dst, hq.src) := by
+  simp [badMeta, hh]
+/-- every reply the server originates for a request — normal, malformed-metadata, reset — goes back
+    along the same route: same id, source and destination swapped, the proxy record minus its last hop. -/
+theorem replies_share_route (req : Env) (m b e h t msg) :
+    let r1 := reply req m b e h t; let r2 := badMeta req m msg; let r3 := reset req
+    r1.id = r2.id ∧ r2.id = r3.id ∧
+    r1.header.map (fun x => (x.src, x.dst, x.next)) = r2.header.map (fun x => (x.src, x.dst, x.next)) ∧
+    r2.header.map (fun x => (x.src, x.dst, x.next)) = r3.header.map (fun x => (x.src, x.dst, x.next)) := by
+  simp [reply, badMeta, reset]
 theorem reply_id (req m b e h t) : (reply req m b e h t).id = req.id := rfl
 theorem reply_swaps (req : Env) (hq : Header) (hh : req.header = some hq) (m b e h t) :
     ((reply req m b e h t).header.map (fun x => (x.src, x.dst))) = some (hq.dst, hq.src) := by
